@@ -439,11 +439,26 @@ def cfg_sites():
                     continue
                 if line.strip().startswith("//"):
                     continue
+                # an attribute may span several lines: take it whole (balanced brackets), the target is what follows it
+                attr = line
                 j = i + 1
+                if re.search(r"#!?\[cfg", line):
+                    depth = line.count("[") + line.count("(") - line.count("]") - line.count(")")
+                    while depth > 0 and j < len(lines):
+                        attr += " " + lines[j]
+                        depth += lines[j].count("[") + lines[j].count("(") - lines[j].count("]") - lines[j].count(")")
+                        j += 1
                 while j < len(lines) and (lines[j].strip().startswith(("#[", "//", "#![")) or not lines[j].strip()):
+                    if re.search(r"#!?\[", lines[j]):
+                        depth = lines[j].count("[") + lines[j].count("(") - lines[j].count("]") - lines[j].count(")")
+                        j += 1
+                        while depth > 0 and j < len(lines):
+                            depth += lines[j].count("[") + lines[j].count("(") - lines[j].count("]") - lines[j].count(")")
+                            j += 1
+                        continue
                     j += 1
                 target = " ".join(lines[j].split()) if j < len(lines) else ""
-                sites.append({"file": rel, "cfg": " ".join(line.split()), "target": target, "line": i + 1})
+                sites.append({"file": rel, "cfg": " ".join(attr.split()), "target": target, "line": i + 1})
             # constructs whose behaviour depends on the build configuration without a cfg attribute: debug assertions and
             # calls of the crate's cfg-dependent unit predicates; identified by their text and the enclosing fn header
             cur_fn = ""
